@@ -8,3 +8,4 @@ INVARIANT CopyFaithfulOK
 INVARIANT CopyDisjointOK
 INVARIANT HistOK
 INVARIANT PureOK
+INVARIANT AfterOK
